@@ -5,12 +5,379 @@ import CoapLite.Lemmas.OptMapExtra
 namespace CoapLite
 namespace Builder
 
-/-- a call sequence panics only through the token-length assertion -/
-theorem build_ok_iff (ops : List BOp) : (∃ p, build ops = .ok p) ↔ NoAssert ops := by
-  sorry
+/-! ### byte algebra behind the header setters (for an arbitrary argument byte) -/
 
-theorem build_never_err (ops : List BOp) (e : Err) : build ops ≠ .err e := by
-  sorry
+private theorem and_or (x y z : UInt8) : x &&& (y ||| z) = (x &&& y) ||| (x &&& z) := by
+  simp [← UInt8.toBitVec_inj, BitVec.and_or_distrib_left]
+
+private theorem ver_arg (v : UInt8) :
+    (v <<< 6) >>> 6 = v &&& 3 ∧ (0x30 : UInt8) &&& (v <<< 6) = 0 ∧ (0x0F : UInt8) &&& (v <<< 6) = 0 :=
+  Codec.byte_forall (fun v => (v <<< 6) >>> 6 = v &&& 3 ∧ (0x30 : UInt8) &&& (v <<< 6) = 0 ∧
+    (0x0F : UInt8) &&& (v <<< 6) = 0) (by decide +kernel) v
+
+private theorem keep3F (a : UInt8) :
+    ((0x3F : UInt8) &&& a) >>> 6 = 0 ∧ (0x30 : UInt8) &&& (0x3F &&& a) = 0x30 &&& a ∧
+    (0x0F : UInt8) &&& (0x3F &&& a) = 0x0F &&& a :=
+  Codec.byte_forall (fun a => ((0x3F : UInt8) &&& a) >>> 6 = 0 ∧
+    (0x30 : UInt8) &&& (0x3F &&& a) = 0x30 &&& a ∧
+    (0x0F : UInt8) &&& (0x3F &&& a) = 0x0F &&& a) (by decide +kernel) a
+
+private theorem keepCF (a : UInt8) :
+    ((0xCF : UInt8) &&& a) >>> 6 = a >>> 6 ∧ (0x30 : UInt8) &&& (0xCF &&& a) = 0 ∧
+    (0x0F : UInt8) &&& (0xCF &&& a) = 0x0F &&& a :=
+  Codec.byte_forall (fun a => ((0xCF : UInt8) &&& a) >>> 6 = a >>> 6 ∧
+    (0x30 : UInt8) &&& (0xCF &&& a) = 0 ∧
+    (0x0F : UInt8) &&& (0xCF &&& a) = 0x0F &&& a) (by decide +kernel) a
+
+private theorem keepF0 (a : UInt8) :
+    ((0xF0 : UInt8) &&& a) >>> 6 = a >>> 6 ∧ (0x30 : UInt8) &&& (0xF0 &&& a) = 0x30 &&& a ∧
+    (0x0F : UInt8) &&& (0xF0 &&& a) = 0 :=
+  Codec.byte_forall (fun a => ((0xF0 : UInt8) &&& a) >>> 6 = a >>> 6 ∧
+    (0x30 : UInt8) &&& (0xF0 &&& a) = 0x30 &&& a ∧
+    (0x0F : UInt8) &&& (0xF0 &&& a) = 0) (by decide +kernel) a
+
+private theorem typ_arg : ∀ t : MessageType,
+    (UInt8.ofNat (MessageType.toBits t) <<< 4) >>> 6 = 0 ∧
+    (0x30 : UInt8) &&& (UInt8.ofNat (MessageType.toBits t) <<< 4) = UInt8.ofNat (MessageType.toBits t) <<< 4 ∧
+    (0x0F : UInt8) &&& (UInt8.ofNat (MessageType.toBits t) <<< 4) = 0 ∧
+    MessageType.ofBits? ((UInt8.ofNat (MessageType.toBits t) <<< 4) >>> 4).toNat = some t := by
+  intro t; cases t <;> decide
+
+private theorem tkl_arg (n : UInt8) : (0xF0 : UInt8) &&& n = 0 →
+    n >>> 6 = 0 ∧ (0x30 : UInt8) &&& n = 0 ∧ (0x0F : UInt8) &&& n = n :=
+  Codec.byte_forall (fun n => (0xF0 : UInt8) &&& n = 0 →
+    n >>> 6 = 0 ∧ (0x30 : UInt8) &&& n = 0 ∧ (0x0F : UInt8) &&& n = n) (by decide +kernel) n
+
+private theorem tkl_assert (n : UInt8) : (0xF0 : UInt8) &&& n = 0 ↔ n.toNat < 16 :=
+  Codec.byte_forall (fun n => (0xF0 : UInt8) &&& n = 0 ↔ n.toNat < 16) (by decide +kernel) n
+
+private theorem vtt_recompose (a : UInt8) :
+    a = ((a >>> 6) <<< 6) ||| ((((0x30 : UInt8) &&& a) >>> 4) <<< 4) ||| ((0x0F : UInt8) &&& a) :=
+  Codec.byte_forall (fun a =>
+    a = ((a >>> 6) <<< 6) ||| ((((0x30 : UInt8) &&& a) >>> 4) <<< 4) ||| ((0x0F : UInt8) &&& a))
+    (by decide +kernel) a
+
+private theorem vtt_ext (a b : UInt8) (h1 : a >>> 6 = b >>> 6)
+    (h2 : ((0x30 : UInt8) &&& a) >>> 4 = ((0x30 : UInt8) &&& b) >>> 4)
+    (h3 : (0x0F : UInt8) &&& a = (0x0F : UInt8) &&& b) : a = b := by
+  rw [vtt_recompose a, vtt_recompose b, h1, h2, h3]
+
+/-! ### header setters: each one writes its own field and leaves the two others alone -/
+
+private theorem getVersion_setVersion (h : Header) (v : UInt8) :
+    (h.setVersion v).getVersion = v &&& 3 := by
+  simp only [Header.setVersion, Header.getVersion, UInt8.shiftRight_or, (ver_arg v).1,
+    (keep3F h.vtt).1, UInt8.or_zero]
+
+private theorem getType_setVersion (h : Header) (v : UInt8) :
+    (h.setVersion v).getType = h.getType := by
+  simp only [Header.setVersion, Header.getType, Header.typeBits, and_or, (ver_arg v).2.1,
+    (keep3F h.vtt).2.1, UInt8.zero_or]
+
+private theorem getTkl_setVersion (h : Header) (v : UInt8) :
+    (h.setVersion v).getTkl = h.getTkl := by
+  simp only [Header.setVersion, Header.getTkl, and_or, (ver_arg v).2.2,
+    (keep3F h.vtt).2.2, UInt8.zero_or]
+
+private theorem getVersion_setType (h : Header) (t : MessageType) :
+    (h.setType t).getVersion = h.getVersion := by
+  simp only [Header.setType, Header.getVersion, UInt8.shiftRight_or, (typ_arg t).1,
+    (keepCF h.vtt).1, UInt8.zero_or]
+
+private theorem getType_setType (h : Header) (t : MessageType) :
+    (h.setType t).getType = .ok t := by
+  simp only [Header.setType, Header.getType, Header.typeBits, and_or, (typ_arg t).2.1,
+    (keepCF h.vtt).2.1, UInt8.or_zero, (typ_arg t).2.2.2]
+
+private theorem getTkl_setType (h : Header) (t : MessageType) :
+    (h.setType t).getTkl = h.getTkl := by
+  simp only [Header.setType, Header.getTkl, and_or, (typ_arg t).2.2.1,
+    (keepCF h.vtt).2.2, UInt8.zero_or]
+
+/-- the header after a successful `set_token_length(n)` -/
+private def withTkl (h : Header) (n : UInt8) : Header := { h with vtt := n ||| (0xF0 &&& h.vtt) }
+
+private theorem setTkl_eq (h : Header) (n : UInt8) :
+    h.setTkl n = if n.toNat < 16 then .ok (withTkl h n) else .panic := by
+  unfold Header.setTkl withTkl
+  by_cases hn : n.toNat < 16
+  · have := (tkl_assert n).2 hn
+    simp [hn, this]
+  · have : ¬ (0xF0 : UInt8) &&& n = 0 := fun e => hn ((tkl_assert n).1 e)
+    simp [hn, this]
+
+private theorem getVersion_withTkl (h : Header) (n : UInt8) (hn : n.toNat < 16) :
+    (withTkl h n).getVersion = h.getVersion := by
+  have a := tkl_arg n ((tkl_assert n).2 hn)
+  simp only [withTkl, Header.getVersion, UInt8.shiftRight_or, a.1, (keepF0 h.vtt).1, UInt8.zero_or]
+
+private theorem getType_withTkl (h : Header) (n : UInt8) (hn : n.toNat < 16) :
+    (withTkl h n).getType = h.getType := by
+  have a := tkl_arg n ((tkl_assert n).2 hn)
+  simp only [withTkl, Header.getType, Header.typeBits, and_or, a.2.1, (keepF0 h.vtt).2.1,
+    UInt8.zero_or]
+
+private theorem getTkl_withTkl (h : Header) (n : UInt8) (hn : n.toNat < 16) :
+    (withTkl h n).getTkl = n := by
+  have a := tkl_arg n ((tkl_assert n).2 hn)
+  simp only [withTkl, Header.getTkl, and_or, a.2.2, (keepF0 h.vtt).2.2, UInt8.or_zero]
+
+private theorem code_withTkl (h : Header) (n : UInt8) : (withTkl h n).code = h.code := rfl
+private theorem mid_withTkl (h : Header) (n : UInt8) : (withTkl h n).mid = h.mid := rfl
+
+private theorem tokLen_toNat (t : Bytes) : (UInt8.ofNat (t.length % 256)).toNat = t.length % 256 :=
+  Codec.toNat_ofNat_lt (Nat.mod_lt _ (by decide))
+
+private theorem setToken_eq (p : Packet) (t : Bytes) :
+    p.setToken t = if t.length % 256 < 16
+      then .ok { p with header := withTkl p.header (UInt8.ofNat (t.length % 256)), token := t }
+      else .panic := by
+  unfold Packet.setToken
+  rw [setTkl_eq, tokLen_toNat]
+  by_cases hn : t.length % 256 < 16 <;> simp [hn]
+
+/-! ### one call -/
+
+/-- the documented assertion, for one call -/
+private def OpOK (op : BOp) : Prop :=
+  (∀ n, op = .tkl n → n.toNat < 16) ∧ (∀ t, op = .tok t → t.length % 256 < 16)
+
+private theorem noAssert_cons (op : BOp) (ops : List BOp) :
+    NoAssert (op :: ops) ↔ OpOK op ∧ NoAssert ops := by
+  simp only [NoAssert, OpOK, List.mem_cons, forall_eq_or_imp]
+
+private theorem noAssert_nil : NoAssert [] := by
+  intro op h; cases h
+
+private theorem apply_ne_err (p : Packet) (op : BOp) (e : Err) : apply p op ≠ .err e := by
+  cases op <;> simp only [apply, ne_eq, reduceCtorEq, not_false_eq_true]
+  · rename_i n
+    rw [setTkl_eq]; split <;> simp [Res.map]
+  · rename_i t
+    rw [setToken_eq]; split <;> simp
+
+private theorem apply_ok_iff (p : Packet) (op : BOp) : (∃ q, apply p op = .ok q) ↔ OpOK op := by
+  cases op <;> simp only [apply, OpOK, reduceCtorEq, false_implies, implies_true, and_self,
+    Res.ok.injEq, exists_eq', BOp.tkl.injEq, BOp.tok.injEq, forall_eq', and_true, true_and]
+  · rename_i n
+    rw [setTkl_eq]; split <;> simp [Res.map, *]
+  · rename_i t
+    rw [setToken_eq]; split <;> simp [*]
+
+/-- the state of `build`'s fold -/
+private def run (r : Res Packet) (ops : List BOp) : Res Packet :=
+  ops.foldl (fun r op => r.bind (fun p => apply p op)) r
+
+private theorem build_eq (ops : List BOp) : build ops = run (.ok Packet.new) ops := rfl
+
+private theorem run_cons (r : Res Packet) (op : BOp) (ops : List BOp) :
+    run r (op :: ops) = run (r.bind (fun p => apply p op)) ops := rfl
+
+private theorem run_panic (ops : List BOp) : run .panic ops = .panic := by
+  induction ops with
+  | nil => rfl
+  | cons op ops ih => rw [run_cons]; exact ih
+
+private theorem run_err (e : Err) (ops : List BOp) : run (.err e) ops = .err e := by
+  induction ops with
+  | nil => rfl
+  | cons op ops ih => rw [run_cons]; exact ih
+
+private theorem apply_cases (p : Packet) (op : BOp) :
+    (∃ q, apply p op = .ok q) ∨ apply p op = .panic := by
+  cases h : apply p op with
+  | ok q => exact .inl ⟨q, rfl⟩
+  | err e => exact absurd h (apply_ne_err p op e)
+  | panic => exact .inr rfl
+
+private theorem run_ok_iff (ops : List BOp) (p₀ : Packet) :
+    (∃ p, run (.ok p₀) ops = .ok p) ↔ NoAssert ops := by
+  induction ops generalizing p₀ with
+  | nil => simp [run, noAssert_nil]
+  | cons op ops ih =>
+    rw [run_cons, noAssert_cons, ← apply_ok_iff p₀ op]
+    simp only [Res.bind]
+    rcases apply_cases p₀ op with ⟨q, hq⟩ | hq
+    · rw [hq, ih q]; simp
+    · rw [hq, run_panic]; simp
+
+private theorem run_ne_err (ops : List BOp) (p₀ : Packet) (e : Err) : run (.ok p₀) ops ≠ .err e := by
+  induction ops generalizing p₀ with
+  | nil => simp [run]
+  | cons op ops ih =>
+    rw [run_cons]
+    simp only [Res.bind]
+    rcases apply_cases p₀ op with ⟨q, hq⟩ | hq
+    · rw [hq]; exact ih q
+    · rw [hq, run_panic]; simp
+
+/-- a call sequence panics only through the token-length assertion -/
+theorem build_ok_iff (ops : List BOp) : (∃ p, build ops = .ok p) ↔ NoAssert ops :=
+  run_ok_iff ops Packet.new
+
+theorem build_never_err (ops : List BOp) (e : Err) : build ops ≠ .err e :=
+  run_ne_err ops Packet.new e
+
+/-! ### the invariant -/
+
+/-- `p` is what the reference semantics says after the calls `r` (newest first) -/
+private structure Spec (r : List BOp) (p : Packet) : Prop where
+  opts : ∀ n, p.getOption n = refOpts r n
+  sorted : p.options.Sorted
+  ver : p.header.getVersion = refVer r
+  typ : p.header.getType = .ok (refTyp r)
+  tkl : p.header.getTkl.toNat = refTkl r
+  code : p.header.code = refCode r
+  mid : p.header.mid = refMid r
+  tok : p.token = refTok r
+  pay : p.payload = refPay r
+
+private theorem spec_new : Spec [] Packet.new := by
+  refine ⟨fun n => rfl, trivial, ?_, ?_, ?_, rfl, rfl, rfl, rfl⟩
+  · decide
+  · decide
+  · decide
+
+private theorem spec_step (r : List BOp) (p q : Packet) (op : BOp) (hs : Spec r p)
+    (h : apply p op = .ok q) : Spec (op :: r) q := by
+  obtain ⟨ho, hso, hv, ht, hk, hc, hm, htk, hp⟩ := hs
+  cases op with
+  | ver v =>
+    simp only [apply, Res.ok.injEq] at h; subst h
+    exact ⟨fun n => by simpa [refOpts, Packet.getOption] using ho n, hso,
+      by simp [refVer, getVersion_setVersion],
+      by simpa [refTyp, getType_setVersion] using ht,
+      by simpa [refTkl, getTkl_setVersion] using hk,
+      by simpa [refCode, Header.setVersion] using hc,
+      by simpa [refMid, Header.setVersion] using hm,
+      by simpa [refTok] using htk, by simpa [refPay] using hp⟩
+  | typ t =>
+    simp only [apply, Res.ok.injEq] at h; subst h
+    exact ⟨fun n => by simpa [refOpts, Packet.getOption] using ho n, hso,
+      by simpa [refVer, getVersion_setType] using hv,
+      by simp [refTyp, getType_setType],
+      by simpa [refTkl, getTkl_setType] using hk,
+      by simpa [refCode, Header.setType] using hc,
+      by simpa [refMid, Header.setType] using hm,
+      by simpa [refTok] using htk, by simpa [refPay] using hp⟩
+  | tkl n =>
+    simp only [apply] at h
+    rw [setTkl_eq] at h
+    split at h
+    · rename_i hn
+      simp only [Res.map, Res.ok.injEq] at h; subst h
+      exact ⟨fun n => by simpa [refOpts, Packet.getOption] using ho n, hso,
+        by simpa [refVer, getVersion_withTkl _ _ hn] using hv,
+        by simpa [refTyp, getType_withTkl _ _ hn] using ht,
+        by simp [refTkl, getTkl_withTkl _ _ hn],
+        by simpa [refCode, code_withTkl] using hc,
+        by simpa [refMid, mid_withTkl] using hm,
+        by simpa [refTok] using htk, by simpa [refPay] using hp⟩
+    · simp [Res.map] at h
+  | tok t =>
+    simp only [apply] at h
+    rw [setToken_eq] at h
+    split at h
+    · rename_i hn
+      have hn' : (UInt8.ofNat (t.length % 256)).toNat < 16 := by rw [tokLen_toNat]; exact hn
+      simp only [Res.ok.injEq] at h; subst h
+      exact ⟨fun n => by simpa [refOpts, Packet.getOption] using ho n, hso,
+        by simpa [refVer, getVersion_withTkl _ _ hn'] using hv,
+        by simpa [refTyp, getType_withTkl _ _ hn'] using ht,
+        by simp [refTkl, getTkl_withTkl _ _ hn'],
+        by simpa [refCode, code_withTkl] using hc,
+        by simpa [refMid, mid_withTkl] using hm,
+        by simp [refTok], by simpa [refPay] using hp⟩
+    · simp at h
+  | add k v =>
+    simp only [apply, Res.ok.injEq] at h; subst h
+    refine ⟨fun n => ?_, (Codec.mutators_keep_sorted p hso k v []).1,
+      by simpa [refVer, Packet.addOption] using hv,
+      by simpa [refTyp, Packet.addOption] using ht,
+      by simpa [refTkl, Packet.addOption] using hk,
+      by simpa [refCode, Packet.addOption] using hc,
+      by simpa [refMid, Packet.addOption] using hm,
+      by simpa [refTok, Packet.addOption] using htk, by simpa [refPay, Packet.addOption] using hp⟩
+    rw [Codec.addOption_get p hso k n v, ho k, ho n]
+    simp [refOpts]
+  | set k vs =>
+    simp only [apply, Res.ok.injEq] at h; subst h
+    refine ⟨fun n => ?_, (Codec.mutators_keep_sorted p hso k [] vs).2.1,
+      by simpa [refVer, Packet.setOption] using hv,
+      by simpa [refTyp, Packet.setOption] using ht,
+      by simpa [refTkl, Packet.setOption] using hk,
+      by simpa [refCode, Packet.setOption] using hc,
+      by simpa [refMid, Packet.setOption] using hm,
+      by simpa [refTok, Packet.setOption] using htk, by simpa [refPay, Packet.setOption] using hp⟩
+    have := ho n
+    simp only [Packet.getOption] at this
+    simp only [Packet.setOption, Packet.getOption, OptMap.get_insert, refOpts, this]
+  | clr k =>
+    simp only [apply, Res.ok.injEq] at h; subst h
+    refine ⟨fun n => ?_, (Codec.mutators_keep_sorted p hso k [] []).2.2.1,
+      by simpa [refVer, Packet.clearOption] using hv,
+      by simpa [refTyp, Packet.clearOption] using ht,
+      by simpa [refTkl, Packet.clearOption] using hk,
+      by simpa [refCode, Packet.clearOption] using hc,
+      by simpa [refMid, Packet.clearOption] using hm,
+      by simpa [refTok, Packet.clearOption] using htk, by simpa [refPay, Packet.clearOption] using hp⟩
+    have h1 := ho n
+    have h2 := ho k
+    simp only [Packet.getOption] at h1 h2
+    simp only [Packet.clearOption, Packet.getOption, OptMap.get_modify, refOpts, h1, h2]
+  | clrAll =>
+    simp only [apply, Res.ok.injEq] at h; subst h
+    exact ⟨fun n => by simp [refOpts, Packet.clearAllOptions, Packet.getOption, OptMap.get],
+      OptMap.sorted_nil,
+      by simpa [refVer, Packet.clearAllOptions] using hv,
+      by simpa [refTyp, Packet.clearAllOptions] using ht,
+      by simpa [refTkl, Packet.clearAllOptions] using hk,
+      by simpa [refCode, Packet.clearAllOptions] using hc,
+      by simpa [refMid, Packet.clearAllOptions] using hm,
+      by simpa [refTok, Packet.clearAllOptions] using htk,
+      by simpa [refPay, Packet.clearAllOptions] using hp⟩
+  | code c =>
+    simp only [apply, Res.ok.injEq] at h; subst h
+    exact ⟨fun n => by simpa [refOpts, Packet.getOption] using ho n, hso,
+      by simpa [refVer, Header.getVersion] using hv,
+      by simpa [refTyp, Header.getType, Header.typeBits] using ht,
+      by simpa [refTkl, Header.getTkl] using hk,
+      by simp [refCode],
+      by simpa [refMid] using hm,
+      by simpa [refTok] using htk, by simpa [refPay] using hp⟩
+  | mid m =>
+    simp only [apply, Res.ok.injEq] at h; subst h
+    exact ⟨fun n => by simpa [refOpts, Packet.getOption] using ho n, hso,
+      by simpa [refVer, Header.getVersion] using hv,
+      by simpa [refTyp, Header.getType, Header.typeBits] using ht,
+      by simpa [refTkl, Header.getTkl] using hk,
+      by simpa [refCode] using hc,
+      by simp [refMid],
+      by simpa [refTok] using htk, by simpa [refPay] using hp⟩
+  | pay b =>
+    simp only [apply, Res.ok.injEq] at h; subst h
+    exact ⟨fun n => by simpa [refOpts, Packet.getOption] using ho n, hso,
+      by simpa [refVer] using hv,
+      by simpa [refTyp] using ht,
+      by simpa [refTkl] using hk,
+      by simpa [refCode] using hc,
+      by simpa [refMid] using hm,
+      by simpa [refTok] using htk, by simp [refPay]⟩
+
+private theorem run_spec (ops : List BOp) (r : List BOp) (p₀ p : Packet) (hs : Spec r p₀)
+    (h : run (.ok p₀) ops = .ok p) : Spec (ops.reverse ++ r) p := by
+  induction ops generalizing r p₀ with
+  | nil =>
+    simp only [run, List.foldl_nil, Res.ok.injEq] at h; subst h
+    simpa using hs
+  | cons op ops ih =>
+    rw [run_cons] at h
+    simp only [Res.bind] at h
+    rcases apply_cases p₀ op with ⟨q, hq⟩ | hq
+    · rw [hq] at h
+      have := ih (op :: r) q (spec_step r p₀ q op hs hq) h
+      simpa [List.reverse_cons, List.append_assoc] using this
+    · rw [hq, run_panic] at h; cases h
 
 /-- For every sequence of API calls (any calls, any order, any repetitions): the
 resulting packet is exactly what the reference semantics says – per header field
@@ -25,7 +392,75 @@ theorem build_spec (ops : List BOp) (p : Packet) (h : build ops = .ok p) :
     p.header.getTkl.toNat = refTkl ops.reverse ∧
     p.header.code = refCode ops.reverse ∧ p.header.mid = refMid ops.reverse ∧
     p.token = refTok ops.reverse ∧ p.payload = refPay ops.reverse := by
-  sorry
+  have := run_spec ops [] Packet.new p spec_new h
+  rw [List.append_nil] at this
+  obtain ⟨a, b, c, d, e, f, g, i, j⟩ := this
+  exact ⟨a, b, c, d, e, f, g, i, j⟩
+
+/-! ### extensionality -/
+
+private theorem optMap_ext : ∀ (m₁ m₂ : OptMap), m₁.Sorted → m₂.Sorted →
+    (∀ n, m₁.get n = m₂.get n) → m₁ = m₂
+  | [], [], _, _, _ => rfl
+  | [], (k, v) :: _, _, _, h => by
+    have := h k; simp [OptMap.get] at this
+  | (k, v) :: _, [], _, _, h => by
+    have := h k; simp [OptMap.get] at this
+  | (k₁, v₁) :: r₁, (k₂, v₂) :: r₂, s₁, s₂, h => by
+    obtain ⟨l₁, t₁⟩ := (OptMap.sorted_cons (k₁, v₁) r₁).1 s₁
+    obtain ⟨l₂, t₂⟩ := (OptMap.sorted_cons (k₂, v₂) r₂).1 s₂
+    have n₁ : OptMap.get r₁ k₁ = none := OptMap.get_none_of_lt l₁
+    have n₂ : OptMap.get r₂ k₂ = none := OptMap.get_none_of_lt l₂
+    rcases Nat.lt_trichotomy k₁ k₂ with hlt | heq | hgt
+    · have := h k₁
+      have e : OptMap.get r₂ k₁ = none :=
+        OptMap.get_none_of_lt (fun b hb => Nat.lt_trans hlt (l₂ b hb))
+      have hne : ¬ k₂ = k₁ := by omega
+      simp [OptMap.get, hne, e] at this
+    · subst heq
+      have hv : v₁ = v₂ := by
+        have := h k₁; simpa [OptMap.get] using this
+      subst hv
+      have : r₁ = r₂ := by
+        apply optMap_ext r₁ r₂ t₁ t₂
+        intro n
+        by_cases hn : n = k₁
+        · subst hn; rw [n₁, n₂]
+        · have hne : ¬ k₁ = n := fun e => hn e.symm
+          have := h n
+          simpa [OptMap.get, hne] using this
+      rw [this]
+    · have := h k₂
+      have e : OptMap.get r₁ k₂ = none :=
+        OptMap.get_none_of_lt (fun b hb => Nat.lt_trans hgt (l₁ b hb))
+      have hne : ¬ k₁ = k₂ := by omega
+      simp [OptMap.get, hne, e] at this
+
+private theorem ofBits_eq {x : Nat} {t : MessageType} (h : MessageType.ofBits? x = some t) :
+    x = MessageType.toBits t := by
+  unfold MessageType.ofBits? at h
+  split at h <;> simp at h <;> subst h <;> rfl
+
+private theorem typeBits_of_getType {h : Header} {t : MessageType} (e : h.getType = .ok t) :
+    h.typeBits = MessageType.toBits t := by
+  unfold Header.getType at e
+  split at e
+  · rename_i t' ht
+    simp only [Res.ok.injEq] at e; subst e
+    exact ofBits_eq ht
+  · cases e
+
+private theorem header_ext (h₁ h₂ : Header) (hv : h₁.getVersion = h₂.getVersion)
+    (t : MessageType) (ht₁ : h₁.getType = .ok t) (ht₂ : h₂.getType = .ok t)
+    (hk : h₁.getTkl.toNat = h₂.getTkl.toNat) (hc : h₁.code = h₂.code) (hm : h₁.mid = h₂.mid) :
+    h₁ = h₂ := by
+  have hb : h₁.typeBits = h₂.typeBits := by
+    rw [typeBits_of_getType ht₁, typeBits_of_getType ht₂]
+  have hvtt : h₁.vtt = h₂.vtt :=
+    vtt_ext _ _ hv (UInt8.toNat_inj.1 hb) (UInt8.toNat_inj.1 hk)
+  cases h₁; cases h₂
+  simp only [Header.mk.injEq] at *
+  exact ⟨hvtt, hc, hm⟩
 
 /-- hence two call sequences with the same reference meaning build packets that
 agree on every header field, every option number, token and payload -/
@@ -37,7 +472,21 @@ theorem build_order_irrelevant (ops₁ ops₂ : List BOp) (p₁ p₂ : Packet)
     (hm : refMid ops₁.reverse = refMid ops₂.reverse) (hto : refTok ops₁.reverse = refTok ops₂.reverse)
     (hp : refPay ops₁.reverse = refPay ops₂.reverse) :
     p₁ = p₂ := by
-  sorry
+  obtain ⟨a₁, b₁, c₁, d₁, e₁, f₁, g₁, i₁, j₁⟩ := build_spec ops₁ p₁ h₁
+  obtain ⟨a₂, b₂, c₂, d₂, e₂, f₂, g₂, i₂, j₂⟩ := build_spec ops₂ p₂ h₂
+  have hh : p₁.header = p₂.header :=
+    header_ext _ _ (by rw [c₁, c₂, hv]) (refTyp ops₁.reverse) d₁ (by rw [d₂, ht])
+      (by rw [e₁, e₂, hk]) (by rw [f₁, f₂, hc]) (by rw [g₁, g₂, hm])
+  have hopt : p₁.options = p₂.options :=
+    optMap_ext _ _ b₁ b₂ (fun n => by
+      have x := a₁ n; have y := a₂ n
+      simp only [Packet.getOption] at x y
+      rw [x, y, ho n])
+  have htok : p₁.token = p₂.token := by rw [i₁, i₂, hto]
+  have hpay : p₁.payload = p₂.payload := by rw [j₁, j₂, hp]
+  cases p₁; cases p₂
+  simp only [Packet.mk.injEq] at *
+  exact ⟨hh, htok, hopt, hpay⟩
 
 end Builder
 end CoapLite
